@@ -186,7 +186,8 @@ def extra_entries():
 
     def add(name, cls_name, kw, **meta):
         def make(seed, missing_label=np.nan, classes=(0, 1), _c=cls_name, _kw=kw):
-            k = {a: (dict(b) if isinstance(b, dict) else b) for a, b in _kw.items()}
+            k = {a: (dict(b) if isinstance(b, dict) else (b.copy() if isinstance(b, np.ndarray) else b))
+                 for a, b in _kw.items()}
             return getattr(P, _c)(missing_label=missing_label, random_state=seed, **k)
         out.append(zoo.Entry(name, cls_name, make, **meta))
 
@@ -200,6 +201,29 @@ def extra_entries():
     add("GreedySamplingX(metric_dict)", "GreedySamplingX", {"metric": "minkowski", "metric_dict": {"p": 1}}, model=None)
     add("QueryByCommittee(sample_predictions)", "QueryByCommittee", {"method": "vote_entropy"}, model="ensemble",
         samplewise=True)
+    # caller-owned array / list / dict valued parameters (deliberately unsorted, float64, C-contiguous:
+    # the form in which validation helpers hand back a view instead of a copy)
+    cm = np.array([[0.0, 2.0], [1.0, 0.0]])
+    add("ProbCover(deltas)", "ProbCover", {"deltas": np.array([1.0, 0.25, 2.0, 0.5, 1.5])}, model=None, rows=False, cost=2)
+    add("ProbCover(deltas,n_classes)", "ProbCover", {"deltas": np.array([[1.0], [0.25], [0.5]]), "n_classes": 2},
+        model=None, rows=False, cost=2)
+    add("UncertaintySampling(cost_matrix)", "UncertaintySampling", {"method": "least_confident", "cost_matrix": cm},
+        model="clf", samplewise=True)
+    add("MonteCarloEER(cost_matrix)", "MonteCarloEER", {"cost_matrix": cm}, model="clf", cost=2)
+    add("ValueOfInformationEER(cost_matrix)", "ValueOfInformationEER", {"cost_matrix": cm}, model="clf", rows=False,
+        cost=2)
+    add("CostEmbeddingAL(cost_matrix,params)", "CostEmbeddingAL",
+        {"classes": [0, 1], "cost_matrix": cm, "mds_params": {"n_init": 1}, "nn_params": {"n_neighbors": 1}},
+        model=None, samplewise=True, cost=2)
+    add("ContrastiveAL(nn_dict)", "ContrastiveAL", {"nearest_neighbors_dict": {"n_neighbors": 2}}, model="clf_embed",
+        cost=2)
+    add("QueryByCommittee(predictions_dict)", "QueryByCommittee",
+        {"method": "KL_divergence", "sample_predictions_dict": {}}, model="ensemble", samplewise=True)
+    add("ExpectedModelOutputChange(dict)", "ExpectedModelOutputChange",
+        {"integration_dict": {"method": "assume_linear"}}, model="reg_prob", cost=2)
+    add("GreedySamplingTarget(dicts)", "GreedySamplingTarget",
+        {"x_metric": "minkowski", "x_metric_dict": {"p": 1}, "y_metric": "minkowski", "y_metric_dict": {"p": 1}},
+        model="reg")
     return out
 
 
@@ -215,6 +239,7 @@ def main(tier="quick", seed=0):
     chk.model_check("MC_Frame", "MC_Frame.cfg")
     scenarios = chk.generate("PoolGen", "PoolGen.cfg")
     scenarios = [s for s in scenarios if s["n"] >= 3]
+    scenarios += pc.random_scenarios(rng, len(scenarios) // 3)
     per_cost = {1: 40, 2: 16, 3: 6} if quick else {1: 400, 2: 150, 3: 40}
     jobs = []
     for e in ENTRIES.values():
@@ -222,7 +247,7 @@ def main(tier="quick", seed=0):
         for n_ in range(per_cost[e.cost]):
             k = 1 + n_ % 3
             scs = [pool[int(i)] for i in rng.choice(len(pool), size=k, replace=False)]
-            jobs.append((e.name, scs, int(rng.integers(0, 1000)), n_ % 2))
+            jobs.append((e.name, scs, int(rng.integers(0, 1000)), n_ % 3))
     traces = pmap(_job, jobs, chunksize=2)
     chk.count(sum(sum(1 for e in t["events"] if e["ev"] == "Query") for t in traces))
     for t in traces:
